@@ -18,6 +18,7 @@ type GenOpts struct {
 	GenSel        int  // 0 = draw, 1 = always, -1 = never
 	Programs      bool // draw ordered / derived programs too
 	AvoidKnown    bool // mostly avoid configurations with an open known finding
+	PlainOwner    bool // allow hook programs whose children carry a plain ownerReference to the parent
 	LookAlikes    bool // populate foreign-owned / other-namespace / non-matching look-alikes
 	ExpressionSel bool // parents may use matchExpressions selectors
 	Resync        bool
@@ -128,6 +129,14 @@ func NewCompositeSetup(w *World, g GenOpts) *Setup {
 	tp.SetNamespace = t.Pick(2, "setns") == 1
 	tp.NoLabels = cfg.GenerateSelector && t.Pick(2, "nolabels") == 1
 	tp.WithStatus = t.Pick(5, "withstatus") == 4
+	switch t.Pick(8, "oddhook") {
+	case 6:
+		tp.EmptyNS = !tp.SetNamespace
+	case 7:
+		// (only where asked for: with dynamic apply such a hook never converges on the
+		// unchanged tree - a recorded finding - and would drown every liveness oracle)
+		tp.PlainOwner = g.PlainOwner
+	}
 	s.TP = tp
 	mustCreate(w.Store, ResCompositeCtl, "", cfg.Object(), "setup")
 	s.Progs = Programs{"cc": &Program{Sync: tp.SyncResponse, Finalize: tp.FinalizeResponse}}
@@ -162,6 +171,7 @@ func NewCompositeSetup(w *World, g GenOpts) *Setup {
 			s.addInitialObject(p, g)
 		}
 	}
+	cfg.PlainOwnerHook = tp.PlainOwner
 	s.Sig = compositeSig(cfg, opts)
 	w.Cfg["parent"] = cfg.Parent.Kind
 	w.Cfg["ssa"] = fmt.Sprint(opts.Proc.SSA)
@@ -173,7 +183,7 @@ func NewCompositeSetup(w *World, g GenOpts) *Setup {
 		ms = append(ms, r.Res.Kind+":"+r.Method)
 	}
 	w.Cfg["children"] = strings.Join(ms, ",")
-	w.Cfg["program"] = fmt.Sprintf("ordered=%v derived=%v", tp.Ordered, tp.Derived)
+	w.Cfg["program"] = fmt.Sprintf("ordered=%v derived=%v emptyNS=%v plainOwner=%v", tp.Ordered, tp.Derived, tp.EmptyNS, tp.PlainOwner)
 	return s
 }
 
@@ -207,6 +217,10 @@ func (s *Setup) addInitialObject(p Object, g GenOpts) {
 	}
 	switch t.Pick(roles, "initrole") {
 	case 0: // matching orphan under a desired name
+		if t.Pick(3, "orphanref") == 2 {
+			// ... that already lists the parent as a plain (non-controller) owner
+			setPath(child, []interface{}{ownerRefObj(p, false)}, "metadata", "ownerReferences")
+		}
 	case 1: // owned, drifted in an owned and a foreign field
 		setPath(child, []interface{}{ownerRefObj(p, true)}, "metadata", "ownerReferences")
 		setPath(child, "drift", childContentField(k0), "color")
